@@ -100,9 +100,12 @@ class UnitResult:
         self.cmd = ""
 
 
-def _tags_for_line(lines, ln):
-    """Property tags on generated-file line `ln` (1-based) or on the comment-only lines directly above."""
-    tags = set(TAG_RE.findall(lines[ln - 1])) if 0 < ln <= len(lines) else set()
+def _tags_for_line(lines, ln, ln_end=None):
+    """Property tags on generated-file lines `ln..ln_end` (1-based) or on the comment-only lines directly above."""
+    tags = set()
+    for k in range(ln, (ln_end or ln) + 1):
+        if 0 < k <= len(lines):
+            tags |= set(TAG_RE.findall(lines[k - 1]))
     if tags:
         return tags
     k = ln - 2
@@ -288,7 +291,7 @@ def _classify(res, text, meta, js, diags, err, rc):
         clause = _clip(_span_text(clause_span)) if clause_span else ""
         tags = set()
         if clause_span:
-            tags |= _tags_for_line(lines, clause_span["line_start"])
+            tags |= _tags_for_line(lines, clause_span["line_start"], clause_span.get("line_end"))
         if kind == "overflow":
             tags |= set(res.unit.arith_properties)
         if kind in ("assert", "invariant", "decreases") and call:
